@@ -279,7 +279,7 @@ func (ex *Exec) conv(dst, src types.Type, x Value) Value {
 			if db.Info()&types.IsString != 0 {
 				// string(rune)
 				if !xv.IsConst() {
-					panic(engineErr("string(symbolic rune)"))
+					return ex.runeToStr(xv, src)
 				}
 				return Str{S: string(rune(xv.Signed()))}
 			}
@@ -606,7 +606,7 @@ func (ex *Exec) callBuiltin(b *ssa.Builtin, args []Value, site ssa.Instruction) 
 	case "print", "println":
 		return nil
 	case "panic":
-		panic(targetPanic{v: args[0], msg: ex.panicString(args[0])})
+		panic(ex.newPanic(args[0], ex.panicString(args[0])))
 	case "recover":
 		// the frame that called recover() is a deferred function; its caller is the panicking frame
 		fr := ex.curFr
@@ -668,7 +668,7 @@ func (ex *Exec) callBuiltin(b *ssa.Builtin, args []Value, site ssa.Instruction) 
 	case "ssa:wrapnilchk":
 		recv := args[0]
 		if p, ok := recv.(Ptr); ok && p.P == nil {
-			panic(targetPanic{msg: "value method called using nil pointer"})
+			panic(ex.newPanic(nil, "value method called using nil pointer"))
 		}
 		return recv
 	}
@@ -677,3 +677,45 @@ func (ex *Exec) callBuiltin(b *ssa.Builtin, args []Value, site ssa.Instruction) 
 
 var _ = fmt.Sprintf
 var _ = utf8.RuneError
+
+// runeToStr is string(r) for a symbolic integer r (UTF-8 encoding; invalid code points
+// become U+FFFD), forking on the encoded length.
+func (ex *Exec) runeToStr(x *Term, src types.Type) Str {
+	st := ex.st
+	_, signed, _ := intWidth(src)
+	var r *Term
+	if x.W >= 32 {
+		// values that do not fit in 32 bits are invalid
+		if x.W > 32 {
+			hi := st.Extract(x, 32, x.W-32)
+			fits := st.Eq(hi, st.Const(x.W-32, 0))
+			if !ex.branch(fits) {
+				return Str{S: "\uFFFD"}
+			}
+		}
+		r = st.Extract(x, 0, 32)
+	} else if signed {
+		r = st.SExt(x, 32)
+	} else {
+		r = st.ZExt(x, 32)
+	}
+	c := func(v uint64) *Term { return st.Const(32, v) }
+	b8 := func(t *Term) *Term { return st.Extract(t, 0, 8) }
+	shr := func(t *Term, k uint64) *Term { return st.Bin(OpLShr, t, c(k)) }
+	and := func(t *Term, m uint64) *Term { return st.Bin(OpBAnd, t, c(m)) }
+	or := func(t *Term, m uint64) *Term { return st.Bin(OpBOr, t, c(m)) }
+	if ex.branch(st.Ult(r, c(0x80))) {
+		return mkStr([]*Term{b8(r)})
+	}
+	if ex.branch(st.Ult(r, c(0x800))) {
+		return mkStr([]*Term{b8(or(shr(r, 6), 0xC0)), b8(or(and(r, 0x3F), 0x80))})
+	}
+	surrogate := st.And(st.Ule(c(0xD800), r), st.Ule(r, c(0xDFFF)))
+	if ex.branch(st.Or(surrogate, st.Ult(c(0x10FFFF), r))) {
+		return Str{S: "\uFFFD"}
+	}
+	if ex.branch(st.Ult(r, c(0x10000))) {
+		return mkStr([]*Term{b8(or(shr(r, 12), 0xE0)), b8(or(and(shr(r, 6), 0x3F), 0x80)), b8(or(and(r, 0x3F), 0x80))})
+	}
+	return mkStr([]*Term{b8(or(shr(r, 18), 0xF0)), b8(or(and(shr(r, 12), 0x3F), 0x80)), b8(or(and(shr(r, 6), 0x3F), 0x80)), b8(or(and(r, 0x3F), 0x80))})
+}
